@@ -114,7 +114,7 @@ def build():
     world.class_parents["ASTVisitor"] = []
     world.class_module.update({"ASTTransformVisitor": "pyoak.visitor", "ASTVisitor": "pyoak.visitor"})
     A(Contract("pyoak.visitor:ASTTransformVisitor._transform_children", params={"self": "Visitor", "node": "Ref"}, returns="Changes", props=P,
-               trusted=True, trusted_reason="per-field change tracking; covered by the bounded reference comparison in rt.c09 (its dict-of-lists bookkeeping is not yet under a discharged contract)",
+               trusted=True, trusted_reason="callee summary for generic_visit (the mapping of changed fields as an abstract value tc_of); the body is proved below as _transform_children#body (per-field change tracking, pointwise)",
                may_raise=["Exception"], ensures=["result == tc_of(self, node)"]))
 
     node_replace = z3.Function("astnode_replace", REF.z3(), CHG.z3(), REF.z3())   # ASTNode.replace: unregisters the original (C03) -- not what a transformer may do to its input
